@@ -53,13 +53,16 @@ func init() {
 
 // Case is one fault placement.
 type Case struct {
-	Kind      string `json:"kind"` // presend | upload | roundtrip | server | cancel | drain
-	Payload   string `json:"payload,omitempty"`
-	Fault     string `json:"fault,omitempty"`
-	Offset    int    `json:"offset,omitempty"`
-	Len       int    `json:"len,omitempty"`
-	Chunk     int    `json:"chunk,omitempty"`
-	Reuse     bool   `json:"reuse,omitempty"`
+	Kind    string `json:"kind"` // presend | upload | roundtrip | server | cancel | drain
+	Payload string `json:"payload,omitempty"`
+	Fault   string `json:"fault,omitempty"`
+	Offset  int    `json:"offset,omitempty"`
+	Len     int    `json:"len,omitempty"`
+	Chunk   int    `json:"chunk,omitempty"`
+	Reuse   bool   `json:"reuse,omitempty"`
+	// ReuseVia: how connection reuse is switched on: "" New + EnableConnectionReuse before the first call;
+	// "with-client" NewWithClient + EnableConnectionReuse; "after-first-call" enabled once a first call has been made
+	ReuseVia  string `json:"reuseVia,omitempty"`
 	Deadline  string `json:"deadline,omitempty"` // request | context | both-request-shorter | both-context-shorter
 	Reader    string `json:"reader,omitempty"`   // all | none | half | err
 	Chunked   bool   `json:"chunked,omitempty"`
@@ -71,7 +74,57 @@ type Case struct {
 }
 
 func (c *Case) key() string {
-	return fmt.Sprintf("%s|%s|%s|%d|%d|%d|%v|%s|%s|%v|%s|%v|%v|%d", c.Kind, c.Payload, c.Fault, c.Offset, c.Len, c.Chunk, c.Reuse, c.Deadline, c.Reader, c.Chunked, c.HookPoint, c.Sizes, c.EOFWith, c.Perturb)
+	return fmt.Sprintf("%s|%s|%s|%d|%d|%d|%v|%s|%s|%v|%s|%v|%v|%d", c.Kind, c.Payload, c.Fault, c.Offset, c.Len, c.Chunk, c.Reuse, c.Deadline, c.Reader, c.Chunked, c.HookPoint, c.Sizes, c.EOFWith, c.Perturb) + "|" + c.ReuseVia
+}
+
+// switchRT serves a first, benign exchange itself and hands every later request to next.
+type switchRT struct {
+	next   http.RoundTripper
+	warmed int32
+}
+
+func (s *switchRT) RoundTrip(r *http.Request) (*http.Response, error) {
+	if atomic.CompareAndSwapInt32(&s.warmed, 0, 1) {
+		if r.Body != nil {
+			_, _ = io.Copy(io.Discard, r.Body)
+			r.Body.Close()
+		}
+		return &http.Response{StatusCode: 200, Status: "200 OK", Proto: "HTTP/1.1", ProtoMajor: 1, ProtoMinor: 1,
+			Header: http.Header{"Content-Type": {"application/json"}}, Body: io.NopCloser(strings.NewReader(`{"warm":1}`)), ContentLength: -1, Request: r}, nil
+	}
+	return s.next.RoundTrip(r)
+}
+
+// newRuntime builds the client runtime of a case over the given transport, switching connection reuse
+// on through the entry point the case names.
+func newRuntime(c *Case, host string, tr http.RoundTripper) *client.Runtime {
+	if !c.Reuse {
+		r := client.New(host, "/api", []string{"http"})
+		r.Transport = tr
+		return r
+	}
+	switch c.ReuseVia {
+	case "with-client":
+		r := client.NewWithClient(host, "/api", []string{"http"}, &http.Client{Transport: tr})
+		r.EnableConnectionReuse()
+		return r
+	case "after-first-call":
+		r := client.New(host, "/api", []string{"http"})
+		r.Transport = &switchRT{next: tr}
+		warm := &rt.ClientOperation{ID: "warm", Method: "GET", PathPattern: "/warm", ProducesMediaTypes: []string{"application/json"},
+			Params: rt.ClientRequestWriterFunc(func(rt.ClientRequest, strfmt.Registry) error { return nil }),
+			Reader: rt.ClientResponseReaderFunc(func(resp rt.ClientResponse, _ rt.Consumer) (interface{}, error) {
+				_, _ = io.Copy(io.Discard, resp.Body())
+				return nil, nil
+			}), Context: context.Background()}
+		_, _ = r.Submit(warm)
+		r.EnableConnectionReuse()
+		return r
+	}
+	r := client.New(host, "/api", []string{"http"})
+	r.Transport = tr
+	r.EnableConnectionReuse()
+	return r
 }
 
 // ---------- scripted collaborators ----------
@@ -565,11 +618,7 @@ func runRoundtrip(m *mon.M, c *Case) {
 	before := census()
 	body := &respBody{data: []byte(`{"k":"` + strings.Repeat("r", c.Len) + `"}`), eofWith: c.EOFWith}
 	srt := &scriptedRT{mode: c.Fault, body: body}
-	r := client.New("example.invalid", "/api", []string{"http"})
-	r.Transport = srt
-	if c.Reuse {
-		r.EnableConnectionReuse()
-	}
+	r := newRuntime(c, "example.invalid", srt)
 	op := &rt.ClientOperation{ID: "x", Method: "POST", PathPattern: "/things", ConsumesMediaTypes: consumesFor(c), ProducesMediaTypes: []string{"application/json"},
 		Params: h.params(c, baseDeadline, false), Reader: h.reader(c), Context: context.Background()}
 	o := submitWatched(r, op, 200*baseDeadline)
@@ -700,13 +749,9 @@ func runServer(m *mon.M, c *Case) {
 	before := census()
 	timeout, ctx, cancel := deadlines(c)
 	defer cancel()
-	r := client.New(fs.ln.Addr().String(), "/api", []string{"http"})
 	tr := &http.Transport{DisableKeepAlives: !c.Reuse}
 	defer tr.CloseIdleConnections()
-	r.Transport = tr
-	if c.Reuse {
-		r.EnableConnectionReuse()
-	}
+	r := newRuntime(c, fs.ln.Addr().String(), tr)
 	c2 := *c
 	if c2.Reader == "" {
 		c2.Reader = "all"
@@ -944,6 +989,11 @@ func enumerate(m *mon.M) []*Case {
 							continue
 						}
 						cs = append(cs, &Case{Kind: "roundtrip", Fault: f, Payload: p, Len: 300, Reuse: reuse, Reader: rd, EOFWith: ew})
+						if reuse && f == "ok" {
+							for _, via := range []string{"with-client", "after-first-call"} {
+								cs = append(cs, &Case{Kind: "roundtrip", Fault: f, Payload: p, Len: 300, Reuse: reuse, ReuseVia: via, Reader: rd, EOFWith: ew})
+							}
+						}
 					}
 				}
 			}
@@ -970,7 +1020,11 @@ func enumerate(m *mon.M) []*Case {
 						if off%5 == 0 {
 							pl = "file"
 						}
-						cs = append(cs, &Case{Kind: "server", Fault: act, Offset: off, Chunked: chunked, Reuse: reuse, Deadline: dl, Payload: pl, Len: 40, Reader: "all"})
+						via := ""
+						if reuse {
+							via = []string{"", "with-client", "after-first-call"}[off%3]
+						}
+						cs = append(cs, &Case{Kind: "server", Fault: act, Offset: off, Chunked: chunked, Reuse: reuse, ReuseVia: via, Deadline: dl, Payload: pl, Len: 40, Reader: "all"})
 					}
 				}
 			}
